@@ -76,6 +76,10 @@ def check(model: Model, rep: Report, tier: str):
         from ..resolve import CallGraph as _CG
         _cg = _CG(model)
         _h7(model, rep, _cg, _Eff(model, _cg), rule="C01.R14", keep=lambda f: "/structure/" in f.module.relpath or "/language/" in f.module.relpath)
+    from .c05 import _k1_k2
+    with rep.isolated():
+        share_rule(rep, model, _k1_k2, "C01.R18", "the equations hold through nesting because a nested block is its copy: copy() of every operation and link class keeps the "
+                   "relation type, the duration strategy, qubits and channels (= C05.K1/K2); a copy that falls back to a default follows instead of joining, or lasts 0")
     from .c03 import h5
     from ..resolve import CallGraph
     with rep.isolated():
@@ -874,6 +878,34 @@ def r13(model: Model, rep: Report):
         why = f"__hash__ reads {sorted(reads)}" + ("" if ok else f", not the channel ({sorted(accessors)})")
     else:
         why = f"hash={hk}"
+    # a de-duplicating helper of the package: does it decide "seen before" through a hash container (hash AND equality must agree) or by scanning a list (equality
+    # alone -- under the relaxed __eq__ the ALL identifier IS equal to a specific one listed before it, and is dropped whatever the hash says)
+    for f_, n_, d_ in sites:
+        nm_ = d_.split(".")[-1]
+        tgt_ = model.lookup_symbol(f_.module, nm_) if "." not in d_ else None
+        from ..model import FunctionInfo as _FI
+        if not isinstance(tgt_, _FI):
+            continue
+        kinds = {}
+        for st_ in ast.walk(tgt_.node):
+            if isinstance(st_, (ast.Assign, ast.AnnAssign)) and st_.value is not None:
+                for t_ in (st_.targets if isinstance(st_, ast.Assign) else [st_.target]):
+                    if isinstance(t_, ast.Name):
+                        v_ = st_.value
+                        if isinstance(v_, (ast.Set, ast.Dict, ast.SetComp, ast.DictComp)) or (isinstance(v_, ast.Call) and isinstance(v_.func, ast.Name) and v_.func.id in ("set", "dict", "frozenset", "OrderedDict")):
+                            kinds[t_.id] = "hash"
+                        elif isinstance(v_, (ast.List, ast.ListComp)) or (isinstance(v_, ast.Call) and isinstance(v_.func, ast.Name) and v_.func.id in ("list", "deque")):
+                            kinds[t_.id] = "equality"
+        tests = [c_ for c_ in ast.walk(tgt_.node) if isinstance(c_, ast.Compare) and len(c_.ops) == 1 and isinstance(c_.ops[0], (ast.In, ast.NotIn))
+                 and isinstance(c_.comparators[0], ast.Name) and c_.comparators[0].id in kinds]
+        by_eq = [c_ for c_ in tests if kinds[c_.comparators[0].id] == "equality"]
+        rep.check(not by_eq, "C01.R13", f"{tgt_.qualname}[seen-before test]", tgt_.loc,
+                  found=(f"`{ast.unparse(by_eq[0])}` scans a list: equality alone decides" if by_eq else
+                         f"{len(tests)} membership test(s) on hash containers" if tests else "no membership test on a local list"),
+                  required="a hash container (set / dict): ALL and a specific channel hash differently and are both kept",
+                  what=f"{f_.qualname} de-duplicates its channel listing through {tgt_.qualname}, which decides 'seen before' by equality alone: ChannelIdentifier's relaxed __eq__ "
+                       "makes the ALL identifier of a qubit equal to a specific one listed before it, so it is dropped and the block no longer occupies the other channels of that "
+                       "qubit -- a read-out or flux operation added next is not placed after the block", detail="dedupe-by-equality")
     f0, n0, d0 = sites[0]
     rep.check(ok, "C01.R13", "ChannelIdentifier[hash]", CI.loc, found=why, required="the hash separates channels of one qubit",
               what=f"{f0.qualname} de-duplicates through {d0}; with a hash that ignores the channel the ALL identifier of a qubit is dropped after a specific one, so an "
